@@ -311,6 +311,10 @@ class VariationalWassersteinDistance(darsia.EMD):
         self.formulation: str = self.options.get("formulation", "pressure")
         """str: formulation type"""
 
+        # Accept both spellings of the flux-reduced formulation; use the documented one
+        if self.formulation == "flux-reduced":
+            self.formulation = "flux_reduced"
+
         # Safety checks
         assert self.linear_solver_type in [
             "direct",
@@ -320,12 +324,12 @@ class VariationalWassersteinDistance(darsia.EMD):
         ], f"Linear solver {self.linear_solver_type} not supported."
         assert self.formulation in [
             "full",
-            "flux-reduced",
+            "flux_reduced",
             "pressure",
         ], f"Formulation {self.formulation} not supported."
 
         if self.linear_solver_type == "ksp":
-            if self.formulation == "flux-reduced":
+            if self.formulation == "flux_reduced":
                 raise ValueError(
                     "KSP solver only supports for full and pressure formulation."
                 )
